@@ -30,7 +30,23 @@ def special(rng):
     """(a) hairline strokes under a magnifying ancestor; (b) sharp miter corners with wide strokes, sampled along the
     outward bisector where SVG bevels or not depending on the miter limit"""
     k = rng.random()
-    if k < 0.08:
+    if k < 0.05:
+        # artwork in tiny local units under an enlarging transform: short hairlines and small dashes whose outline pieces
+        # have a tiny area in the shape's own coordinates
+        sc = 50
+        x0, y0 = rng.uniform(0.4, 1.2), rng.uniform(0.3, 1.2)
+        if rng.random() < 0.5:
+            L = rng.choice([0.3, 0.4])
+            src = ('<svg xmlns="http://www.w3.org/2000/svg" viewBox="0 0 100 100"><g transform="scale(%d)"><path d="M%.2f,%.2f L%.2f,%.2f" fill="none" stroke="red" stroke-width="0.02"/></g></svg>'
+                   % (sc, x0, y0, x0 + L, y0))
+            pts = [((x0 + L * f) * sc, y0 * sc) for f in (0.2, 0.4, 0.5, 0.6, 0.8)]
+        else:
+            src = ('<svg xmlns="http://www.w3.org/2000/svg" viewBox="0 0 100 100"><g transform="scale(%d)"><path d="M%.2f,%.2f L%.2f,%.2f" fill="none" stroke="blue" stroke-width="0.05" stroke-dasharray="0.1"/></g></svg>'
+                   % (sc, x0, y0, x0 + 0.7, y0))
+            # centres of the first dashes (on: [0,0.1), [0.2,0.3), ...) and of the gaps between them
+            pts = [((x0 + 0.05 + 0.2 * i) * sc, y0 * sc) for i in range(3)] + [((x0 + 0.15 + 0.2 * i) * sc, y0 * sc) for i in range(3)]
+        return src, pts
+    if k < 0.1:
         w = rng.choice(["0.05", "0.08", "0.02"])
         sc = rng.choice([20, 30])
         x0 = rng.uniform(0.5, 2.0)
